@@ -8,7 +8,6 @@ From PV Require Import Base.Order Base.CutDef Base.CutLemmas DD.DDModel DD.DDBas
 Import ListNotations.
 Open Scope N_scope.
 
-Definition FINAL : list N := [5; 0; 0; 0].
 Definition final_of (e : N) (rel : list N) : version := (e, (rel, FINAL)).
 Definition dev_of (e : N) (rel : list N) : version := (e, (rel, [1; 0; 0; 0])).
 Definition post_of (e : N) (rel : list N) : version := (e, (rel, [6; 0; 1; 18446744073709551615])).
